@@ -418,7 +418,13 @@ def explore_two_writers(base: str, cfg: dict, max_preempt, only_schedule=None) -
             run.bodies = []
             cleanup(world)
         return acc
-    stats = sched.explore(lambda: two_writer_world(base, cfg), judge, max_preemptions=max_preempt)
+    # all interleavings when no bound is given - up to a ceiling three times the largest space of the current writer (a writer that
+    # performs many more operations would otherwise never finish); past it the completed statement is the 2-preemption one
+    stats = sched.explore(lambda: two_writer_world(base, cfg), judge, max_preemptions=max_preempt, limit=0 if max_preempt is not None else 20000)
+    if stats.get('capped'):
+        acc.caps.append(f'two writers {cfg}: more than 20000 interleavings; every schedule with <= 2 preemptions explored instead')
+        st2 = sched.explore(lambda: two_writer_world(base, cfg), judge, max_preemptions=2)
+        stats['schedules'] += st2['schedules']
     acc.count('schedules', stats['schedules'])
     acc.count('max_points_per_schedule', stats['max_points'])
     acc.sample({'two_writers': cfg, 'schedules': stats['schedules']}, 1)
